@@ -869,6 +869,8 @@ def hist_task(task):
 
         @rule(v=var, cmp=st.one_of(st.none(), st.sampled_from(cmps), st.sampled_from(cmps), st.sampled_from([L, num(3)])))
         def sort(self, v, cmp):
+            if len(self.h.vars[v].items) > 40:
+                return  # the consistency test of the verdict is cubic
             self.do({"op": "sort", "v": v, "cmp": cmp})
 
         @rule(v=var, key=st.one_of(st.integers(-2, 3).map(lambda k: ["len", k]), st.integers(-2, 3).map(lambda k: ["len", k]),
